@@ -989,7 +989,9 @@ static int cabd_can_merge_folders(struct mspack_system *sys,
      * should be identical in number and order. to verify this, check the
      * offset and length of each file. */
     for (l=lfi, r=rfi; l; l=l->next, r=r->next) {
-        if (!r || (l->offset != r->offset) || (l->length != r->length)) {
+        if (!r || (r->folder != (struct mscabd_folder *) rfol) ||
+            (l->offset != r->offset) || (l->length != r->length))
+        {
             matching = 0;
             break;
         }
@@ -1003,6 +1005,8 @@ static int cabd_can_merge_folders(struct mspack_system *sys,
     matching = 0;
     for (l = lfi; l; l = l->next) {
         for (r = rfi; r; r = r->next) {
+            /* only the files of rfol itself can be the same files */
+            if (r->folder != (struct mscabd_folder *) rfol) { r = NULL; break; }
             if (l->offset == r->offset && l->length == r->length) break;
         }
         if (r) matching = 1; else sys->message(NULL,
